@@ -6,7 +6,7 @@ from .domain import Lin
 from .interp import MAX_DEPTH, MAX_VISITS, ORDERING, Interp, Unsupported
 from .join import join
 from .state import State
-from .values import BOT, Arr, Bot, BoxU, Delta, Enum, Fn, FnPtr, Iter, Opaque, Ref, Scalar, Seq, Struct, Val
+from .values import FnSet, BOT, Arr, Bot, BoxU, Delta, Enum, Fn, FnPtr, Iter, Opaque, Ref, Scalar, Seq, Struct, Val
 
 CMP_OPS = ("Eq", "Ne", "Lt", "Le", "Gt", "Ge")
 BIG_THRESHOLDS = sorted(set([0, -1, 1] + [(1 << b) - 1 for b in (7, 8, 15, 16, 31, 32, 63, 64, 127, 128)] + [-(1 << b) for b in (7, 15, 31, 63, 127)]))
@@ -1420,6 +1420,26 @@ class Exec(Interp):
         """Call through a function pointer value."""
         if isinstance(fv, FnPtr) and isinstance(fv.target, Fn):
             return self.call_fn_item(S, frame, inst, bi, t, fv.target, args, site)
+        if isinstance(fv, FnPtr) and isinstance(fv.target, FnSet):
+            # one of several known crate functions: analyse each in its own copy of the state and join
+            from .join import join as join_states
+
+            cell = ("fnset",) + tuple(site)
+            J = None
+            for n_, fn_ in enumerate(fv.target.fns):
+                T = S.copy()
+                r_ = self.call_fn_item(T, frame, inst, bi, t, fn_, args, site + ("alt", n_))
+                if T.dead or r_ is None:
+                    continue
+                T.cells[cell] = r_
+                J = T if J is None else join_states(J, T, (frame, "fnset", bi, n_))
+            if J is None:
+                S.dead = True
+                return None
+            ret = J.cells.pop(cell, None)
+            for name in ("cells", "iv", "lin", "cmpd", "ovf", "notd", "absd", "discr", "when", "facts", "dead", "log", "gen", "emem"):
+                setattr(S, name, getattr(J, name))
+            return ret
         if isinstance(fv, FnPtr) and isinstance(fv.target, Struct) and fv.target.path.startswith("closure:"):
             return self.call_closure(S, frame, inst, bi, t, fv.target, [fv.target, Struct("tuple", args)], site, by_ref=False)
         # environment callback: result is anything of the return type; &mut arguments are havocked
